@@ -392,4 +392,70 @@ class ImportSpellings(object):
             _SPLIT[0] = 0
         return outcome, [(sig + '|from-clause-per-symbol', detail) for sig, detail in vs], steps
 
-FAMILIES = [Tables(), Lists(), Compliance(), ImportSpellings()]
+
+class NamesOfEarlierImports(object):
+    name = 'names-an-earlier-module-imported'
+    describe = ('ONE compiler compiles EARLY-MIB, which imports remoteIdx / remoteObj / remoteNotif from REMOTE-MIB, and the unrelated '
+                'TEST-MIB, which DEFINES objects of those very names and uses them in INDEX, OBJECTS and NOTIFICATIONS lists; request '
+                'orders (EARLY first / last / in a call of its own): every reference of TEST-MIB points into TEST-MIB')
+
+    def blocks(self, tier):
+        return [{}]
+
+    def cases(self, block, tier):
+        for plan in ([['EARLY-MIB', 'TEST-MIB']], [['TEST-MIB', 'EARLY-MIB']], [['EARLY-MIB'], ['TEST-MIB']], [['TEST-MIB']]):
+            for backend in ('json', 'pysnmp'):
+                yield {'plan': plan, 'backend': backend}
+
+    def run_case(self, case):
+        rmod = remote_module()
+        early = {'name': 'EARLY-MIB', 'decls': [
+            {'k': 'value', 'name': 'earlyRoot', 'oid': ['enterprises', 555]},
+            {'k': 'og', 'name': 'earlyGroup', 'objects': ['remoteObj', 'remoteIdx'], 'status': 'current', 'descr': 'd', 'oid': ['earlyRoot', 1]},
+            {'k': 'ng', 'name': 'earlyNotifs', 'objects': ['remoteNotif'], 'status': 'current', 'descr': 'd', 'oid': ['earlyRoot', 2]}]}
+        local = [{'k': 'value', 'name': 'ctxRoot', 'oid': ['enterprises', 4242]}]
+        local += table('test', 'ctxRoot', 1, ['remoteIdx', 'colB'], index=[(0, 'remoteIdx')])
+        local += [ot('remoteObj', ('simple', 'Integer32'), ['ctxRoot', 2]),
+                  {'k': 'nt', 'name': 'remoteNotif', 'objects': ['remoteObj', 'colB'], 'status': 'current', 'descr': 'd', 'oid': ['ctxRoot', 3]},
+                  {'k': 'og', 'name': 'testGroup', 'objects': ['remoteObj', 'colB'], 'status': 'current', 'descr': 'd', 'oid': ['ctxRoot', 4]},
+                  {'k': 'ng', 'name': 'testNotifs', 'objects': ['remoteNotif'], 'status': 'current', 'descr': 'd', 'oid': ['ctxRoot', 5]}]
+        lmod = {'name': LOCAL, 'decls': local}
+        mods = [refir.finish_module(rmod, [rmod, early]), refir.finish_module(early, [rmod, early]), refir.finish_module(lmod, [lmod])]
+        texts = dict((m['name'], mibspec.pretty([m])) for m in mods)
+        writer = env.CaptureWriter()
+        comp = env.MibCompiler(env.fresh_parser('smiV2'), env.make_codegen(case['backend']), writer)
+        alltexts = env.base_texts()
+        alltexts.update(texts)
+        comp.addSources(env.DictReader(alltexts))
+        comp.addSearchers(env.StubSearcher(*env.BASE_NAMES))
+        for req in case['plan']:
+            res = comp.compile(*req, rebuild=True)
+        written = dict((n, d) for n, d, _ in writer.written)
+        sig = 'C06|earlier-imports|%s|%s' % (case['backend'], '+'.join(','.join(r) for r in case['plan']))
+        if LOCAL not in written:
+            return 'notcompiled', [('%s|not-compiled' % sig, repr(dict((k, str(v)) for k, v in res.items())))], 1
+        vs = []
+        if case['backend'] == 'json':
+            doc = json.loads(written[LOCAL])
+            refs = [('testEntry.indices', doc.get('testEntry', {}).get('indices') or [])] + \
+                   [('%s.objects' % k, doc.get(k, {}).get('objects') or []) for k in ('remoteNotif', 'testGroup', 'testNotifs')]
+            for where, lst in refs:
+                for ent in lst:
+                    if ent.get('module') != LOCAL:
+                        vs.append(('%s|reference-names-another-module' % sig, '%s: %r' % (where, ent)))
+        else:
+            b = pysnmp_rec.RecBuilder()
+            ns, err = pysnmp_rec.run_module(written[LOCAL], b, LOCAL)
+            if err:
+                return 'noexec', [('%s|does-not-execute|%s' % (sig, err.split(':')[0]), err)], 1
+            for name, call in (('testEntry', 'setIndexNames'), ('remoteNotif', 'setObjects'), ('testGroup', 'setObjects'),
+                               ('testNotifs', 'setObjects')):
+                o = ns.get(name)
+                for c_ in (o.called(call) if isinstance(o, pysnmp_rec.Node) else []):
+                    for a in c_:
+                        modname = a[1] if call == 'setIndexNames' else a[0]
+                        if modname != LOCAL:
+                            vs.append(('%s|reference-names-another-module' % sig, '%s.%s: %r' % (name, call, a)))
+        return 'ok', vs, len(case['plan'])
+
+FAMILIES = [Tables(), Lists(), Compliance(), ImportSpellings(), NamesOfEarlierImports()]
